@@ -32,7 +32,7 @@ func expandEdgeAPs(aps []AcceptPoint) []AcceptPoint {
 // that a big.Int is a valid secp256k1 scalar: Cmp(N) ≥ 0 is false and
 // Sign() == 0 is false.  It returns the big.Int values so tested.
 type scalarGuard struct {
-	x            ssa.Value
+	x             ssa.Value
 	cmpN, nonZero bool
 }
 
@@ -110,7 +110,7 @@ func checkC05(p *Program, r *Report) {
 	r.Explain = "C05.len: every accepting return of NewKeyFromString knows len(decoded) == 82 (78-byte payload + 4-byte checksum). C05.checksum: it lies behind a " +
 		"full 4-byte SHA256d comparison over decoded[:len−4]. C05.valid: the accepting path is split by the first key byte; on the private arm both scalar " +
 		"range tests (Cmp(N) ≥ 0, Sign() == 0) reject and exactly the leading zero byte is stripped; on the public arm the curve-point parser succeeded on " +
-		"the 33 key bytes. Not decided: round-trip equality for every key (value level; the shape-level ingredient, fixed-width key material, is C04.pad)."
+		"the 33 key bytes. C05.canon: the string is not normalised before Base58 decoding (byte-wise symbol lookup). Not decided: round-trip equality for every key (value level; the shape-level ingredient, fixed-width key material, is C04.pad)."
 	r.Trusted = []string{"base58.Decode (in-repo, see C07)", "bchec.ParsePubKey validates a compressed point", "chainhash.DoubleHashB = SHA256(SHA256(·))"}
 	fn := p.Func("hdkeychain", "NewKeyFromString")
 	if fn == nil {
@@ -236,6 +236,7 @@ func checkC05(p *Program, r *Report) {
 	canonicalInput(p, r, "C05.canon", []*ssa.Function{fn})
 	base58ByteLookup(p, r, "C05.canon")
 	r.Floor("C05.len", 1)
+	r.Floor("C05.canon", 1)
 	r.Floor("C05.checksum", 1)
 	r.Floor("C05.valid", 3)
 }
